@@ -27,7 +27,7 @@ func init() {
 	register(&Prop{
 		ID:        "C08",
 		Level:     "exploration",
-		Nodes:     func(tier string) []string { return []string{"avx2", "noadx", "purego"} },
+		Nodes:     func(tier string) []string { return []string{"avx2", "avx", "noadx", "purego"} },
 		Cross:     true,
 		Gen:       genC08,
 		Exec:      execC08,
